@@ -1028,22 +1028,25 @@ impl<Backing : AsRef<[u32]> + AsMut<[u32]>> DrawTarget<Backing> {
             return;
         }
 
-        // `src_rect.min` lands on `dst`, so every source pixel moves by this offset
-        let offset = dst - src_rect.min;
+        // `src_rect.min` lands on `dst`, so every source pixel moves by this offset. `src_rect` and `dst`
+        // can be anywhere in the range of i32, their difference need not fit in one.
+        let offset_x = dst.x as i64 - src_rect.min.x as i64;
+        let offset_y = dst.y as i64 - src_rect.min.y as i64;
 
         // the part of the destination that receives pixels
-        let dst_rect = dst_rect.intersection_unchecked(&clipped_src_rect.translate(offset));
-        if dst_rect.is_empty() {
+        let dst_min_x = (clipped_src_rect.min.x as i64 + offset_x).max(dst_rect.min.x as i64);
+        let dst_min_y = (clipped_src_rect.min.y as i64 + offset_y).max(dst_rect.min.y as i64);
+        let dst_max_x = (clipped_src_rect.max.x as i64 + offset_x).min(dst_rect.max.x as i64);
+        let dst_max_y = (clipped_src_rect.max.y as i64 + offset_y).min(dst_rect.max.y as i64);
+        if dst_min_x >= dst_max_x || dst_min_y >= dst_max_y {
             return;
         }
-        let src_rect = dst_rect.translate(-offset);
+        let width = (dst_max_x - dst_min_x) as usize;
 
-        for y in src_rect.min.y..src_rect.max.y {
-            let dst_row_start = (dst_rect.min.x + (y + offset.y) * self.width) as usize;
-            let dst_row_end = dst_row_start + src_rect.size().width as usize;
-            let src_row_start = (src_rect.min.x + y * src.width) as usize;
-            let src_row_end = src_row_start + src_rect.size().width as usize;
-            f(&src.buf.as_ref()[src_row_start..src_row_end], &mut self.buf.as_mut()[dst_row_start..dst_row_end]);
+        for dst_y in dst_min_y..dst_max_y {
+            let dst_row_start = (dst_min_x + dst_y * self.width as i64) as usize;
+            let src_row_start = ((dst_min_x - offset_x) + (dst_y - offset_y) * src.width as i64) as usize;
+            f(&src.buf.as_ref()[src_row_start..src_row_start + width], &mut self.buf.as_mut()[dst_row_start..dst_row_start + width]);
         }
     }
 
